@@ -14,7 +14,7 @@ from hypothesis import strategies as st
 
 from vf import core, rvdrive
 from vf.core import Violation
-from vf.gen import asmgen
+from vf.gen import asmgen, cachecfg
 from vf.ref import asm, rv32
 
 ID = "C05"
@@ -37,9 +37,9 @@ ASSUMPTIONS = [
 M32 = 0xFFFFFFFF
 
 
-def _sim(text, case):
+def _sim(text, case, dcache=None):
     from architecture_simulator.simulation.riscv_simulation import RiscvSimulation
-    sim = RiscvSimulation()
+    sim = RiscvSimulation(data_cache=rvdrive.cache_options(dcache)) if dcache else RiscvSimulation()
     try:
         sim.load_program(text)
     except Exception as ex:
@@ -61,7 +61,7 @@ def _run(sim, case, limit=2000):
 
 def _compare_bytes(sim, image, base, end, case, text):
     for a in range(base, end + 8):
-        got = int(sim.state.memory.read_byte(a))
+        got = int(sim.state.memory.read_byte(a, update_statistics=False))
         exp = image.get(a, 0)
         if got != exp:
             raise Violation("layout-byte", case, f"byte {a:#x} (base+{a - base}) = {got:#04x}, reference layout {exp:#04x}\n{text}")
@@ -103,9 +103,17 @@ def check_layout(case, stats):
     _compare_bytes(sim, image, base, end, case, text)
     ast2 = dict(ast, data_first=not case["data_first"])
     text2, _ = asm.render(ast2, case["tape"][::-1])
-    sim2 = _sim(text2, case)
+    sim2 = _sim(text2, case, case.get("dcache"))
+    if case.get("dcache"):
+        # with a data cache configured the assembler still writes the segment below the cache: nothing is counted, and
+        # what the program will read through the cache is the same layout
+        st_ = sim2.state.memory.get_cache_stats()
+        if int(st_["accesses"]) or int(st_["hits"]):
+            raise Violation("data-segment-preload-counted", case, f"data-cache counters after load_program: {st_}\n{text2}")
     _compare_bytes(sim2, image, base, end, case, text2)
     tags = {"layout"} | {"type:" + d["type"] for d in data}
+    if case.get("dcache"):
+        tags.add("loaded-under-data-cache:" + case["dcache"]["type"])
     stats.count(case, _gap_and_mixed(data), tags, sample_tag="layout")
 
 
@@ -223,8 +231,9 @@ def check_example(case, stats):
 
 # ------------------------------------------------------------------------------------------------------------
 def layout_case():
-    return st.builds(lambda d, t, f: {"kind": "layout", "data": d, "tape": t, "data_first": f},
-                     asmgen.data_segment(6).filter(lambda d: len(d) >= 1), asmgen.tape, st.booleans())
+    return st.builds(lambda d, t, f, dc: {"kind": "layout", "data": d, "tape": t, "data_first": f, "dcache": dc},
+                     asmgen.data_segment(6).filter(lambda d: len(d) >= 1), asmgen.tape, st.booleans(),
+                     st.one_of(st.none(), st.none(), cachecfg.small_cache_config(), cachecfg.cache_config()))
 
 
 @st.composite
